@@ -887,3 +887,48 @@ def scrutinee_values(st):
     if st[0] == 'opt':
         return [('N',)] + [('O', v) for (_, v) in comp_values(st[1])]
     return [('K', v) for (_, v) in comp_values(st[1])] + [('R', v) for (_, v) in comp_values(st[2])]
+
+
+# ---- shapes with a hole: a diverging operand as the right operand of an inner short circuit (C23)
+HOLE = ('HOLE',)
+
+
+class HoleReached(Exception):
+    pass
+
+
+def bool_holes(s):
+    """the shape with the right operand of one of its && / || nodes replaced by HOLE (every such node, any depth)"""
+    out = []
+    k = s[0]
+    if k in ('EAnd', 'EOr'):
+        out.append((k, s[1], HOLE))
+        out += [(k, h, s[2]) for h in bool_holes(s[1])]
+        out += [(k, s[1], h) for h in bool_holes(s[2])]
+    elif k == 'ENot':
+        out += [('ENot', h) for h in bool_holes(s[1])]
+    return out
+
+
+def bool_eval_lazy(s, args):
+    """value under the assignment; raises HoleReached when evaluation gets to the hole"""
+    if s == HOLE:
+        raise HoleReached()
+    k = s[0]
+    if k == 'ENot':
+        return not bool_eval_lazy(s[1], args)
+    if k == 'EAnd':
+        return bool_eval_lazy(s[1], args) and bool_eval_lazy(s[2], args)
+    if k == 'EOr':
+        return bool_eval_lazy(s[1], args) or bool_eval_lazy(s[2], args)
+    return bool_eval(s, args)
+
+
+def fill_hole(s, e):
+    if s == HOLE:
+        return e
+    if s[0] in ('EAnd', 'EOr'):
+        return (s[0], fill_hole(s[1], e), fill_hole(s[2], e))
+    if s[0] == 'ENot':
+        return ('ENot', fill_hole(s[1], e))
+    return s
